@@ -748,6 +748,56 @@ func runC03(c *core.Ctx) {
 			}
 		}
 	}
+	// ---- (iii-j) roots whose types (all of them, or the operation root types) were handed over with AddTypes instead of SDL:
+	// every kind of request on them
+	if own() {
+		ref := func(n string) ggql.Type { return &ggql.Ref{Base: ggql.Base{N: n}} }
+		obj := func(name, field string) *ggql.Object {
+			o := &ggql.Object{Base: ggql.Base{N: name}}
+			_ = o.AddField(&ggql.FieldDef{Base: ggql.Base{N: field}, Type: ref("Int")})
+			return o
+		}
+		setups := []struct {
+			name  string
+			sdl   string
+			types func() []ggql.Type
+		}{
+			{"everything by AddTypes", "", func() []ggql.Type { return []ggql.Type{obj("Query", "i")} }},
+			{"all three root types by AddTypes", "", func() []ggql.Type {
+				return []ggql.Type{obj("Query", "i"), obj("Mutation", "m"), obj("Subscription", "s")}
+			}},
+			{"Query by SDL, Mutation and Subscription by AddTypes", "type Query { i: Int }\n", func() []ggql.Type { return []ggql.Type{obj("Mutation", "m"), obj("Subscription", "s")} }},
+			{"Mutation by SDL only, Query by AddTypes", "type Mutation { m: Int }\n", func() []ggql.Type { return []ggql.Type{obj("Query", "i")} }},
+		}
+		requests := []string{"{ i }", "{ __typename }", "{ __schema { queryType { name } mutationType { name } subscriptionType { name } types { name } } }", "query { i }", "mutation { m }",
+			"subscription { s }", "{ __type(name: \"Query\") { fields { name } } }", "{ zz }", "fragment F on Query { i } { ...F }"}
+		for _, su := range setups {
+			for _, rq := range requests {
+				if !c.NextCase("root built by AddTypes (" + su.name + ") ResolveString: " + rq) {
+					continue
+				}
+				c.Eval()
+				c.R.Distinct++
+				c.Nontrivial()
+				if pi := core.Safe(func() {
+					root := ggql.NewRoot(c16Dummy{})
+					if su.sdl != "" {
+						if err := root.ParseString(su.sdl); err != nil {
+							panic(core.EngineError{Msg: "C03 AddTypes family: SDL refused: " + err.Error()})
+						}
+					}
+					if err := root.AddTypes(su.types()...); err != nil {
+						panic(core.EngineError{Msg: "C03 AddTypes family: AddTypes refused: " + err.Error()})
+					}
+					res := root.ResolveString(rq, "", nil)
+					_ = ggql.WriteJSONValue(io.Discard, res, -1)
+					_ = root.SDL(false, true)
+				}); pi != nil {
+					st.panicked("root-built-by-AddTypes", "ResolveString", pi, su.name+": "+rq)
+				}
+			}
+		}
+	}
 	// ---- (iv) reader faults at every Read call of every corpus document
 	for di, doc := range append(append([]string{}, exeCorpus[:6]...), sdlCorpus[:3]...) {
 		isSDL := di >= 6
